@@ -9,6 +9,7 @@ import (
 	"go/types"
 	"math"
 	"unicode/utf8"
+	"unsafe"
 
 	"golang.org/x/tools/go/ssa"
 )
@@ -801,9 +802,59 @@ func (i *interpreter) callBuiltin(caller *frame, callpos token.Pos, fn *ssa.Buil
 
 	case "ssa:deferstack":
 		return &caller.defers
+
+	// unsafe.* builtins used by strings.Builder, strings.Clone, etc.
+	case "SliceData":
+		return dataPtr{elems: args[0].([]value)}
+	case "StringData":
+		return dataPtr{elems: i.strBytes(args[0]), str: true}
+	case "String":
+		n := int(i.concInt(args[1], "unsafe.String length"))
+		switch p := args[0].(type) {
+		case dataPtr:
+			if n > len(p.elems) {
+				i.throw("unsafe.String: len out of range")
+			}
+			return mkStr(p.elems[:n])
+		case *value:
+			if p == nil && n == 0 {
+				return ""
+			}
+			if p != nil {
+				// pointer to the first of n contiguous elements of a host backing array
+				return mkStr(unsafe.Slice(p, n))
+			}
+		}
+		i.unsupported("unsafe.String on %T", args[0])
+	case "Slice":
+		n := int(i.concInt(args[1], "unsafe.Slice length"))
+		switch p := args[0].(type) {
+		case dataPtr:
+			if n > len(p.elems) {
+				i.throw("unsafe.Slice: len out of range")
+			}
+			if p.str {
+				return append([]value(nil), p.elems[:n]...)
+			}
+			return p.elems[:n:n]
+		case *value:
+			if p == nil && n == 0 {
+				return []value(nil)
+			}
+			if p != nil {
+				return unsafe.Slice(p, n)
+			}
+		}
+		i.unsupported("unsafe.Slice on %T", args[0])
 	}
 
 	panic("unknown built-in: " + fn.Name())
+}
+
+// dataPtr is the result of unsafe.SliceData / unsafe.StringData.
+type dataPtr struct {
+	elems []value
+	str   bool
 }
 
 type stringIter struct {
@@ -933,15 +984,26 @@ func (i *interpreter) conv(t_dst, t_src types.Type, x value) value {
 			return mkStr(xs)
 		case types.Rune:
 			xs := x.([]value)
-			r := make([]rune, len(xs))
-			for j, e := range xs {
+			var out []value
+			for _, e := range xs {
 				ev := e.(ival)
-				if !ev.t.IsConst() {
-					i.unsupported("[]rune -> string with symbolic rune")
+				if ev.t.IsConst() {
+					out = append(out, i.strBytes(string(rune(ev.i64())))...)
+					continue
 				}
-				r[j] = rune(ev.i64())
+				// symbolic rune: case split on the UTF-8 length class (1 or 2 bytes); larger runes are concretised
+				if i.ex.Branch(c.Cmp(OpUlt, ev.t, c.BV(0x80, 32))) {
+					out = append(out, ival{c.Extract(ev.t, 7, 0), types.Uint8})
+				} else if i.ex.Branch(c.Cmp(OpUlt, ev.t, c.BV(0x800, 32))) {
+					hi := c.Bin(OpOr, c.BV(0xc0, 8), c.Extract(c.Bin(OpLShr, ev.t, c.BV(6, 32)), 7, 0))
+					lo := c.Bin(OpOr, c.BV(0x80, 8), c.Bin(OpAnd, c.Extract(ev.t, 7, 0), c.BV(0x3f, 8)))
+					out = append(out, ival{hi, types.Uint8}, ival{lo, types.Uint8})
+				} else {
+					r := rune(int32(i.ex.Concretize(ev.t, i.cfg.ConcLimit, "rune in []rune->string")))
+					out = append(out, i.strBytes(string(r))...)
+				}
 			}
-			return string(r)
+			return mkStr(out)
 		}
 
 	case *types.Basic:
